@@ -51,6 +51,34 @@ func issue(r *RNG, subject string, pub crypto.PublicKey, parent *x509.Certificat
 	return der
 }
 
+// The embedded default root (GlobalSign) cannot sign generated BLOBs. fido.GlobalSignRootCAPEM is an exported variable read on every call:
+// the harness replaces it once, at start, by a root of its own, so that "no option given" and "the configured pool is empty / nil" can be
+// told apart with BLOBs that chain to THE DEFAULT root.
+var defaultRootKey *KeyPair
+var defaultRootDER []byte
+
+func init() {
+	r := NewRNG(0xd0f0)
+	defaultRootKey = genKeyPairOnCurve(r, algES256, 1, false)
+	defaultRootDER = issue(r, "harness default blob root", defaultRootKey.Public(), nil, defaultRootKey, true, time.Now().Add(2000*time.Hour), true)
+	fido.GlobalSignRootCAPEM = pem.EncodeToMemory(&pem.Block{Type: "CERTIFICATE", Bytes: defaultRootDER})
+}
+
+// underDefaultRoot re-issues the hierarchy's first certificate below the root under the harness default root
+func (p *pki) underDefaultRoot(r *RNG, depth int) {
+	rootCert, _ := x509.ParseCertificate(defaultRootDER)
+	far := time.Now().Add(1000 * time.Hour)
+	p.rootKey, p.root = defaultRootKey, defaultRootDER
+	if depth <= 2 {
+		p.inter = nil
+		p.leaf = issue(r, "mds leaf", p.leafKey.Public(), rootCert, defaultRootKey, false, far, false)
+		return
+	}
+	p.inter = issue(r, "verif blob intermediate", p.interKey.Public(), rootCert, defaultRootKey, true, far, false)
+	interCert, _ := x509.ParseCertificate(p.inter)
+	p.leaf = issue(r, "mds leaf", p.leafKey.Public(), interCert, p.interKey, false, far, false)
+}
+
 func newPKI(r *RNG, depth int, leafExpired bool) *pki {
 	kinds := []int{algES256, algRS256, algES384}
 	mk := func() *KeyPair {
@@ -214,12 +242,19 @@ func init() {
 		Stream{"blob.deviations", func(c *Ctx) {
 			r := c.R
 			devs := []string{"", "", "payload.altered", "signature.altered", "header.altered", "root.other", "leaf.expired", "chain.reordered", "chain.missing",
-				"signedByNonLeaf", "pool.default", "pool.empty", "pool.nil", "pool.lastWins", "pool.lastWinsBad", "garbage"}
+				"signedByNonLeaf", "pool.default", "pool.empty", "pool.nil", "pool.lastWins", "pool.lastWinsBad", "garbage",
+				"default.none", "default.emptyPool", "default.nilPool", "default.otherPool", "default.emptyThenNothing"}
 			n := c.N(6, 200)
 			for i := 0; i < n; i++ {
 				for _, dv := range devs {
 					depth := 1 + r.Intn(3)
 					p := newPKI(r, depth, dv == "leaf.expired")
+					if strings.HasPrefix(dv, "default.") {
+						if depth == 1 {
+							depth = 2
+						}
+						p.underDefaultRoot(r, depth)
+					}
 					signKey := p.leafKey
 					if dv == "signedByNonLeaf" {
 						signKey = p.rootKey
@@ -260,6 +295,19 @@ func init() {
 					pools := []any{0}
 					expect := dv == ""
 					switch dv {
+					case "default.none":
+						// no option: the chain ends in the default root
+						pools, poolRoots, expect = []any{}, [][]string{}, true
+					case "default.emptyPool":
+						pools, poolRoots = []any{0}, [][]string{{}}
+					case "default.nilPool":
+						pools, poolRoots = []any{"nil"}, [][]string{}
+					case "default.otherPool":
+						other := newPKI(r, 2, false)
+						pools, poolRoots = []any{0}, [][]string{{hx(other.root)}}
+					case "default.emptyThenNothing":
+						// an explicit default pool first, an empty pool last: the last option wins
+						pools, poolRoots = []any{"default", 0}, [][]string{{}}
 					case "root.other":
 						other := newPKI(r, 2, false)
 						for sameKey(other.rootKey, p.rootKey) || sameKey(other.rootKey, p.interKey) || sameKey(other.rootKey, p.leafKey) {
